@@ -145,9 +145,9 @@ func newRand(seed uint64, stream uint64) *rand.Rand {
 // --- structured key generators -------------------------------------------
 
 var alphabets = [][]byte{
-	{0x00, 0x01, 0x02, 0xff},      // escape bytes
-	{'a', 'b'},                    // tiny: forces shared prefixes
-	{0x00, 'a'},                   // zero + letter
+	{0x00, 0x01, 0x02, 0xff},          // escape bytes
+	{'a', 'b'},                        // tiny: forces shared prefixes
+	{0x00, 'a'},                       // zero + letter
 	{'a', 'b', 'c', 0x00, 0x01, 0xff}, // mixed
 }
 
